@@ -296,7 +296,7 @@ Lemma x_bitop_sel o a b :
   let! y := bitop_sel o (is_fixed a) (xw a) (xv a) (is_fixed b) (xw b) (xv b) in Ok (x_with a y).
 Proof.
   destruct a as [w v|v|[|] v]; destruct b as [w2 r|r|[|] r];
-    unfold x_bitop, bitop_sel; cbn [core rewrap is_fixed xw xv x_with bind]; try reflexivity;
+    unfold x_bitop, bitop_sel; cbn [core rewrap is_fixed xw xv x_with bind]; unfold BVP_W; try reflexivity;
     match goal with
     | |- context [d_bitop_f ?o ?v ?w ?r] => destruct (d_bitop_f o v w r)
     | |- context [d_bitop_d ?o ?v ?r] => destruct (d_bitop_d o v r)
@@ -381,4 +381,430 @@ Proof.
   split; [assumption|]. rewrite G4, Hr, (Good_abs a Ha), (Good_abs b Hb).
   destruct o; cbn [s_bitop bitop_fn]; unfold s_and, s_or, s_xor; cbn [blen bval];
     rewrite trunc_mod; reflexivity.
+Qed.
+
+(* ------------------------------------------------------------------ + - *)
+
+Definition addsub_val (o : addop) (n a b : N) : N :=
+  match o with
+  | OpAdd => (a + b) mod 2 ^ n
+  | OpSub => (a + 2 ^ n - b mod 2 ^ n) mod 2 ^ n
+  end.
+
+Lemma addsub_val_mod o n a R m : n <= m -> addsub_val o n a (R mod 2 ^ m) = addsub_val o n a R.
+Proof.
+  intros H. destruct o; cbn [addsub_val].
+  - rewrite (N.add_mod a (R mod 2 ^ m)) by apply pow2_ne0. rewrite mod_mod_pow2 by assumption.
+    rewrite <- N.add_mod by apply pow2_ne0. reflexivity.
+  - rewrite mod_mod_pow2 by assumption. reflexivity.
+Qed.
+
+Lemma f_chain_gen o w v rhs R :
+  0 < w -> canon_wv w v -> digits_of w R rhs ->
+  let y := (let '(d, _) := carry_chain (cstep o w) rhs (wd v) 0 0 in mkwv (mod2n w d (wl v)) (wl v)) in
+  canon_wv w y /\ wl y = wl v /\ lenw (wd y) = lenw (wd v) /\
+  raw w (wd y) = addsub_val o (wl v) (raw w (wd v)) R.
+Proof.
+  intros Hw (Hd & Hl & Hr) HR.
+  assert (H : words_ok w (fst (carry_chain (cstep o w) rhs (wd v) 0 0)) /\
+              lenw (fst (carry_chain (cstep o w) rhs (wd v) 0 0)) = lenw (wd v) /\
+              raw w (fst (carry_chain (cstep o w) rhs (wd v) 0 0)) mod 2 ^ wl v
+              = addsub_val o (wl v) (raw w (wd v)) R).
+  { destruct o; cbn [cstep addsub_val].
+    - destruct (carry_chain_add_spec w (wd v) rhs R Hw Hd HR) as (H1 & H2 & _ & _).
+      split; [assumption|]. split; [assumption|]. apply add_mod_spec; assumption.
+    - destruct (carry_chain_sub_spec w (wd v) rhs R Hw Hd HR) as (H1 & H2 & _ & _).
+      split; [assumption|]. split; [assumption|]. apply sub_mod_spec; assumption. }
+  destruct (carry_chain (cstep o w) rhs (wd v) 0 0) as [d c]. cbn [fst] in H.
+  destruct H as (H1 & H2 & H3). cbv zeta.
+  destruct (fixed_finish w d (wl v) Hw H1 ltac:(rewrite H2; assumption)) as (F1 & F2 & F3).
+  split; [exact F1|]. cbn [wd wl]. split; [reflexivity|]. split; [rewrite F2; exact H2|].
+  rewrite F3. exact H3.
+Qed.
+
+Lemma ceq_mod o n K D2 c2 D Rk :
+  ceq o D2 (2 ^ n * K * c2) D Rk 0 -> D2 mod 2 ^ n = addsub_val o n D Rk.
+Proof.
+  pose proof (pow2_pos n) as HQ. set (Q := 2 ^ n) in *.
+  destruct o; cbn [ceq addsub_val]; intros H; fold Q.
+  - apply (mod_eq_of_add _ _ _ (K * c2) 0); [lia|]. rewrite N.mul_assoc. lia.
+  - pose proof (div_mod_eq Rk Q) as E. pose proof (N.mod_lt Rk Q ltac:(lia)) as Hm.
+    apply (mod_eq_of_add _ _ _ (Rk / Q + 1) (K * c2)); [lia|].
+    rewrite N.mul_assoc, N.mul_add_distr_l.
+    set (q := Rk / Q) in *. set (rm := Rk mod Q) in *. set (T := Q * K * c2) in *. set (Qq := Q * q) in *.
+    clearbody Qq rm T. clear - H E Hm. lia.
+Qed.
+
+Lemma awin_low d n : Proofs.Arith.win d 0 n = raw 64 d mod 2 ^ (64 * n).
+Proof.
+  unfold Proofs.Arith.win. rewrite N.mul_0_r. change (2 ^ 0) with 1. rewrite N.div_1_r. reflexivity.
+Qed.
+
+Lemma awin_split d a n :
+  raw 64 d mod 2 ^ (64 * (a + n)) = Proofs.Arith.win d 0 a + 2 ^ (64 * a) * Proofs.Arith.win d a n.
+Proof.
+  rewrite awin_low. unfold Proofs.Arith.win. replace (64 * (a + n)) with (64 * a + 64 * n) by lia.
+  apply mod_pow2_split.
+Qed.
+
+Lemma chain_range_empty step rhs d a b c : b <= a -> chain_range step rhs d a b c = Ok (d, c).
+Proof. intros H. unfold chain_range. replace (b - a) with 0 by lia. reflexivity. Qed.
+
+(* the two consecutive loops of the heap-vector += / -= *)
+Lemma two_ranges o d rhs R ks kr :
+  words_ok 64 d -> ks <= lenw d -> R < 2 ^ (64 * kr) ->
+  (forall i, i < N.min ks kr -> exists y, rhs i = Ok y /\ y = (R / 2 ^ (64 * i)) mod 2 ^ 64) ->
+  exists d1 c1 d2 c2,
+    chain_range (ostep o) rhs d 0 (N.min ks kr) 0 = Ok (d1, c1) /\
+    chain_range (ostep o) (fun _ => Ok 0) d1 kr ks c1 = Ok (d2, c2) /\
+    words_ok 64 d2 /\ lenw d2 = lenw d /\ (forall i, ks <= i -> getw d2 i = getw d i) /\
+    ceq o (raw 64 d2 mod 2 ^ (64 * ks)) (2 ^ (64 * ks) * c2) (raw 64 d mod 2 ^ (64 * ks))
+        (R mod 2 ^ (64 * ks)) 0.
+Proof.
+  intros Hd Hks HR Hrhs.
+  destruct (chain_range_spec o d rhs 0 (N.min ks kr) 0 R Hd) as (d1 & c1 & E1 & Hd1 & Hl1 & Hc1 & Hout1 & Heq1);
+    [lia|lia|lia| |].
+  { intros i _ Hi. replace (i - 0) with i by lia. apply Hrhs. assumption. }
+  rewrite N.sub_0_r in Heq1. rewrite !awin_low in Heq1.
+  destruct (N.le_gt_cases ks kr) as [Hle|Hgt].
+  - rewrite N.min_l in * by assumption.
+    exists d1, c1, d1, c1. split; [exact E1|]. split; [apply chain_range_empty; assumption|].
+    split; [assumption|]. split; [assumption|]. split; [|exact Heq1].
+    intros i Hi. apply Hout1. right. assumption.
+  - rewrite N.min_r in * by lia.
+    destruct (chain_range_spec o d1 (fun _ => Ok 0) kr ks c1 0 Hd1) as (d2 & c2 & E2 & Hd2 & Hl2 & Hc2 & Hout2 & Heq2);
+      [lia|lia|assumption| |].
+    { intros i _ _. exists 0. split; [reflexivity|].
+      rewrite N.div_0_l by apply pow2_ne0. rewrite N.mod_0_l by apply pow2_ne0. reflexivity. }
+    exists d1, c1, d2, c2. split; [exact E1|]. split; [exact E2|].
+    split; [assumption|]. split; [congruence|]. split.
+    { intros i Hi. rewrite Hout2 by lia. apply Hout1. lia. }
+    set (m := ks - kr) in *. assert (Eks : ks = kr + m) by lia. rewrite Eks. clearbody m.
+    rewrite !awin_split.
+    replace (64 * (kr + m)) with (64 * kr + 64 * m) by lia. rewrite pow2_add.
+    assert (Rm1 : R mod 2 ^ (64 * kr) = R) by (apply N.mod_small; assumption).
+    assert (Rm2 : R mod (2 ^ (64 * kr) * 2 ^ (64 * m)) = R).
+    { apply N.mod_small. pose proof (pow2_pos (64 * m)). nia. }
+    rewrite Rm1 in Heq1. rewrite Rm2.
+    rewrite N.mod_0_l in Heq2 by apply pow2_ne0.
+    rewrite (Proofs.Arith.win_ext d2 d1 0 kr Hd2 Hd1) by (intros i _ Hi; apply Hout2; lia).
+    rewrite <- (Proofs.Arith.win_ext d1 d kr m Hd1 Hd) by (intros i Hi _; apply Hout1; lia).
+    pose proof (ceq_step o _ _ _ _ _ _ _ _ _ _ _ Heq1 Heq2) as H.
+    rewrite N.mul_0_r, N.add_0_r in H. rewrite !awin_low. exact H.
+Qed.
+
+Lemma d_chain_gen o v rhs R kr :
+  canon_wv 64 v -> R < 2 ^ (64 * kr) ->
+  (forall i, i < N.min (cfbl_d (wl v)) kr -> exists y, rhs i = Ok y /\ y = (R / 2 ^ (64 * i)) mod 2 ^ 64) ->
+  exists d1 c1 d2 c2,
+    chain_range (ostep o) rhs (wd v) 0 (N.min (cfbl_d (wl v)) kr) 0 = Ok (d1, c1) /\
+    chain_range (ostep o) (fun _ => Ok 0) d1 kr (cfbl_d (wl v)) c1 = Ok (d2, c2) /\
+    canon_wv 64 (mkwv (mask_top64 d2 (wl v)) (wl v)) /\
+    lenw (mask_top64 d2 (wl v)) = lenw (wd v) /\
+    raw 64 (mask_top64 d2 (wl v)) = addsub_val o (wl v) (raw 64 (wd v)) R.
+Proof.
+  intros Hc HR Hrhs. pose proof Hc as (Hd & Hl & Hr).
+  pose proof (canon_cfbl_le v Hc) as Hk.
+  assert (Hnk : wl v <= 64 * cfbl_d (wl v)) by (rewrite Proofs.Arith.cfbl_d_eq; lia).
+  set (ks := cfbl_d (wl v)) in *.
+  destruct (two_ranges o (wd v) rhs R ks kr Hd Hk HR Hrhs)
+    as (d1 & c1 & d2 & c2 & E1 & E2 & Hd2 & Hl2 & Hout & Heq).
+  exists d1, c1, d2, c2. split; [exact E1|]. split; [exact E2|].
+  destruct (heap_finish d2 (wl v) Hd2) as (F1 & F2 & F3).
+  { fold ks. rewrite Hl2. assumption. }
+  { fold ks. intros q Hq. rewrite Hout by assumption. apply canon_high64; assumption. }
+  split; [exact F1|]. split; [rewrite F2; exact Hl2|].
+  rewrite F3. rewrite <- (mod_mod_pow2 (raw 64 d2) (wl v) (64 * ks) Hnk).
+  rewrite (pow2_split (wl v) (64 * ks) Hnk) in Heq at 2.
+  rewrite (ceq_mod o _ _ _ _ _ _ Heq).
+  rewrite addsub_val_mod by assumption. f_equal.
+  apply N.mod_small. eapply N.lt_le_trans; [exact Hr|]. apply pow2_le. assumption.
+Qed.
+
+Definition addsub_sel (o : addop) (fa : bool) (wa : N) (va : wv) (fb : bool) (wb : N) (vb : wv)
+  : outcome wv :=
+  match fa, fb with
+  | true, true => Ok (f_addsub_f o wa va wb vb)
+  | true, false => Ok (f_addsub_d o wa va vb)
+  | false, true => d_addsub_f o va wb vb
+  | false, false => d_addsub_d o va vb
+  end.
+
+Lemma x_addsub_sel o a b :
+  x_addsub o a b =
+  let! y := addsub_sel o (is_fixed a) (xw a) (xv a) (is_fixed b) (xw b) (xv b) in Ok (x_with a y).
+Proof.
+  destruct a as [w v|v|[|] v]; destruct b as [w2 r|r|[|] r];
+    unfold x_addsub, addsub_sel; cbn [core rewrap is_fixed xw xv x_with bind]; unfold BVP_W; try reflexivity;
+    match goal with
+    | |- context [d_addsub_f ?o ?v ?w ?r] => destruct (d_addsub_f o v w r)
+    | |- context [d_addsub_d ?o ?v ?r] => destruct (d_addsub_d o v r)
+    end; reflexivity.
+Qed.
+
+Lemma addsub_sel_spec o fa wa va fb wb vb :
+  canon_wv wa va -> std_width wa -> (fa = false -> wa = 64) ->
+  canon_wv wb vb -> std_width wb -> (fb = false -> wb = 64) ->
+  exists y, addsub_sel o fa wa va fb wb vb = Ok y /\ canon_wv wa y /\ wl y = wl va /\
+            (fa = true -> lenw (wd y) = lenw (wd va)) /\
+            raw wa (wd y) = addsub_val o (wl va) (raw wa (wd va)) (raw wb (wd vb)).
+Proof.
+  intros Hca Hsa Ha64 Hcb Hsb Hb64.
+  pose proof (std_width_pos _ Hsa) as Hwa. pose proof (std_width_pos _ Hsb) as Hwb.
+  unfold addsub_sel. destruct fa; destruct fb.
+  - eexists. split; [reflexivity|]. unfold f_addsub_f.
+    destruct (N.eqb_spec wa wb) as [Heq|Hne].
+    + subst wb.
+      destruct (f_chain_gen o wa va (fun i => getw (wd vb) i) _ Hwa Hca (rhs_same wa vb Hwa Hcb))
+        as (G1 & G2 & G3 & G4).
+      split; [exact G1|]. split; [exact G2|]. split; [intros _; exact G3|exact G4].
+    + destruct (f_chain_gen o wa va _ _ Hwa Hca (rhs_get_int wb wa vb Hsb Hsa Hcb)) as (G1 & G2 & G3 & G4).
+      split; [exact G1|]. split; [exact G2|]. split; [intros _; exact G3|exact G4].
+  - rewrite (Hb64 eq_refl) in *.
+    eexists. split; [reflexivity|]. unfold f_addsub_d, W64.
+    destruct (f_chain_gen o wa va _ _ Hwa Hca (rhs_get_int 64 wa vb Hsb Hsa Hcb)) as (G1 & G2 & G3 & G4).
+    split; [exact G1|]. split; [exact G2|]. split; [intros _; exact G3|exact G4].
+  - rewrite (Ha64 eq_refl) in *. unfold d_addsub_f.
+    pose proof (std_widths_ok wb 64 Hsb Hsa) as Hwj.
+    assert (HR : raw wb (wd vb) < 2 ^ (64 * v_int_len W64 vb)).
+    { destruct Hcb as (_ & _ & Hr). eapply N.lt_le_trans; [exact Hr|]. apply pow2_le.
+      unfold W64. apply int_len_bound. lia. }
+    destruct (d_chain_gen o va (fun i => unwrap (v_get_int wb W64 vb i)) _ (v_int_len W64 vb) Hca HR)
+      as (d1 & c1 & d2 & c2 & E1 & E2 & G1 & G2 & G3).
+    { intros i Hi. eexists. unfold W64 in *.
+      split; [apply (get_int_unwrap wb 64 vb i Hwj Hcb); lia|].
+      apply (rhs_get_int wb 64 vb Hsb Hsa Hcb). }
+    rewrite (N.min_comm (v_int_len W64 vb)), E1. cbn [bind]. rewrite E2. cbn [bind].
+    eexists. split; [reflexivity|]. split; [exact G1|]. split; [reflexivity|].
+    split; [intros; discriminate|exact G3].
+  - rewrite (Ha64 eq_refl), (Hb64 eq_refl) in *. unfold d_addsub_d.
+    pose proof (canon_cfbl_le vb Hcb) as Hkb.
+    assert (HR : raw 64 (wd vb) < 2 ^ (64 * cfbl_d (wl vb))).
+    { destruct Hcb as (_ & _ & Hr). eapply N.lt_le_trans; [exact Hr|]. apply pow2_le.
+      rewrite Proofs.Arith.cfbl_d_eq. lia. }
+    destruct (d_chain_gen o va (fun i => geto (wd vb) i) _ (cfbl_d (wl vb)) Hca HR)
+      as (d1 & c1 & d2 & c2 & E1 & E2 & G1 & G2 & G3).
+    { intros i Hi. eexists. split; [apply geto_ok; lia|].
+      apply (getw_raw 64); [lia|apply Hcb]. }
+    rewrite E1. cbn [bind]. rewrite E2. cbn [bind].
+    eexists. split; [reflexivity|]. split; [exact G1|]. split; [reflexivity|].
+    split; [intros; discriminate|exact G3].
+Qed.
+
+Theorem x_addsub_spec o a b :
+  Good a -> Good b ->
+  exists r, x_addsub o a b = Ok r /\ Good r /\ kind_of r = kind_of a /\ is_fixed r = is_fixed a /\
+            abs r = s_addsub o (abs a) (abs b).
+Proof.
+  intros Ha Hb. destruct (Good_view a Ha) as (Hc & Hs & H64). destruct (Good_view b Hb) as (Hcb & Hsb & Hb64).
+  destruct (addsub_sel_spec o _ _ _ _ _ _ Hc Hs H64 Hcb Hsb Hb64) as (y & E & Hy & Hl & Hn & Hr).
+  rewrite x_addsub_sel, E. cbn [bind].
+  destruct (x_with_good a y Ha Hy Hl Hn) as (G1 & G2 & G3 & G4).
+  exists (x_with a y). split; [reflexivity|]. split; [assumption|]. split; [assumption|].
+  split; [assumption|]. rewrite G4, Hr, (Good_abs a Ha), (Good_abs b Hb).
+  destruct o; cbn [s_addsub addsub_val]; unfold s_add, s_sub; cbn [blen bval];
+    rewrite ?trunc_mod, ?pow2_eq; reflexivity.
+Qed.
+
+(* ------------------------------------------------------------------ == and < *)
+
+Lemma raw_lt_int_len w j v n :
+  0 < j -> canon_wv w v -> v_int_len j v <= n -> raw w (wd v) < 2 ^ (j * n).
+Proof.
+  intros Hj (_ & _ & Hr) Hn. eapply N.lt_le_trans; [exact Hr|]. apply pow2_le.
+  etransitivity; [apply (int_len_bound j v Hj)|]. apply N.mul_le_mono_l. assumption.
+Qed.
+
+Lemma ff_words_spec w1 s w2 o :
+  std_width w1 -> std_width w2 -> canon_wv w1 s -> canon_wv w2 o ->
+  f_eq_f w1 s w2 o = (raw w1 (wd s) =? raw w2 (wd o)) /\
+  f_cmp_f w1 s w2 o = N.compare (raw w1 (wd s)) (raw w2 (wd o)).
+Proof.
+  intros H1 H2 Hs Ho. pose proof (std_width_pos _ H2) as Hw2.
+  unfold f_eq_f, f_cmp_f, ff_words.
+  pose proof (rhs_get_int w1 w2 s H1 H2 Hs) as Da. pose proof (rhs_get_int w2 w2 o H2 H2 Ho) as Db.
+  assert (Ba : raw w1 (wd s) < 2 ^ (w2 * N.max (v_int_len w2 s) (v_int_len w2 o)))
+    by (apply raw_lt_int_len; [assumption|assumption|lia]).
+  assert (Bb : raw w2 (wd o) < 2 ^ (w2 * N.max (v_int_len w2 s) (v_int_len w2 o)))
+    by (apply raw_lt_int_len; [assumption|assumption|lia]).
+  split; [apply (eq_words_spec w2)|apply (cmp_words_spec w2)]; assumption.
+Qed.
+
+Lemma df_words_spec s w2 o :
+  std_width w2 -> canon_wv 64 s -> canon_wv w2 o ->
+  d_eq_f s w2 o = (raw 64 (wd s) =? raw w2 (wd o)) /\
+  d_cmp_f s w2 o = N.compare (raw 64 (wd s)) (raw w2 (wd o)).
+Proof.
+  intros H2 Hs Ho. assert (H64 : 0 < 64) by lia.
+  unfold d_eq_f, d_cmp_f, df_words, W64.
+  pose proof (rhs_same 64 s H64 Hs) as Da. pose proof (rhs_get_int w2 64 o H2 std_width_64 Ho) as Db.
+  assert (Ba : raw 64 (wd s) < 2 ^ (64 * N.max (wl s) (v_int_len 64 o))).
+  { destruct Hs as (_ & _ & Hr). eapply N.lt_le_trans; [exact Hr|]. apply pow2_le. lia. }
+  assert (Bb : raw w2 (wd o) < 2 ^ (64 * N.max (wl s) (v_int_len 64 o)))
+    by (apply raw_lt_int_len; [assumption|assumption|lia]).
+  split; [apply (eq_words_spec 64)|apply (cmp_words_spec 64)]; assumption.
+Qed.
+
+Definition eq_sel (fa : bool) (wa : N) (va : wv) (fb : bool) (wb : N) (vb : wv) : bool :=
+  match fa, fb with
+  | true, true => f_eq_f wa va wb vb
+  | true, false => d_eq_f vb wa va
+  | false, true => d_eq_f va wb vb
+  | false, false => d_eq_d va vb
+  end.
+
+Definition cmp_sel (fa : bool) (wa : N) (va : wv) (fb : bool) (wb : N) (vb : wv) : comparison :=
+  match fa, fb with
+  | true, true => f_cmp_f wa va wb vb
+  | true, false => cmp_rev (d_cmp_f vb wa va)
+  | false, true => d_cmp_f va wb vb
+  | false, false => d_cmp_d va vb
+  end.
+
+Lemma x_eq_sel a b : x_eq a b = eq_sel (is_fixed a) (xw a) (xv a) (is_fixed b) (xw b) (xv b).
+Proof. destruct a as [w v|v|[|] v]; destruct b as [w2 r|r|[|] r]; reflexivity. Qed.
+
+Lemma x_cmp_sel a b : x_cmp a b = cmp_sel (is_fixed a) (xw a) (xv a) (is_fixed b) (xw b) (xv b).
+Proof. destruct a as [w v|v|[|] v]; destruct b as [w2 r|r|[|] r]; reflexivity. Qed.
+
+Lemma eq_cmp_sel_spec fa wa va fb wb vb :
+  canon_wv wa va -> std_width wa -> (fa = false -> wa = 64) ->
+  canon_wv wb vb -> std_width wb -> (fb = false -> wb = 64) ->
+  eq_sel fa wa va fb wb vb = (raw wa (wd va) =? raw wb (wd vb)) /\
+  cmp_sel fa wa va fb wb vb = N.compare (raw wa (wd va)) (raw wb (wd vb)).
+Proof.
+  intros Hca Hsa Ha64 Hcb Hsb Hb64. unfold eq_sel, cmp_sel. destruct fa; destruct fb.
+  - apply ff_words_spec; assumption.
+  - rewrite (Hb64 eq_refl) in *. destruct (df_words_spec vb wa va Hsa Hcb Hca) as [E1 E2].
+    rewrite E1, E2. split; [apply N.eqb_sym|]. unfold cmp_rev. symmetry. apply N.compare_antisym.
+  - rewrite (Ha64 eq_refl) in *. apply df_words_spec; assumption.
+  - rewrite (Ha64 eq_refl), (Hb64 eq_refl) in *.
+    split; [apply d_eq_d_spec|apply d_cmp_d_spec]; assumption.
+Qed.
+
+Theorem x_eq_spec a b : Good a -> Good b -> x_eq a b = (bval (abs a) =? bval (abs b)).
+Proof.
+  intros Ha Hb. destruct (Good_view a Ha) as (Hc & Hs & H64). destruct (Good_view b Hb) as (Hcb & Hsb & Hb64).
+  rewrite x_eq_sel, (Good_abs a Ha), (Good_abs b Hb). cbn [bval].
+  apply (eq_cmp_sel_spec _ _ _ _ _ _ Hc Hs H64 Hcb Hsb Hb64).
+Qed.
+
+Theorem x_cmp_spec a b : Good a -> Good b -> x_cmp a b = N.compare (bval (abs a)) (bval (abs b)).
+Proof.
+  intros Ha Hb. destruct (Good_view a Ha) as (Hc & Hs & H64). destruct (Good_view b Hb) as (Hcb & Hsb & Hb64).
+  rewrite x_cmp_sel, (Good_abs a Ha), (Good_abs b Hb). cbn [bval].
+  apply (eq_cmp_sel_spec _ _ _ _ _ _ Hc Hs H64 Hcb Hsb Hb64).
+Qed.
+
+(* ------------------------------------------------------------------ * *)
+
+Lemma mul_mod_down X A R n m :
+  n <= m -> X mod 2 ^ m = (A mod 2 ^ m * R) mod 2 ^ m -> X mod 2 ^ n = (A * R) mod 2 ^ n.
+Proof.
+  intros H E. rewrite <- (mod_mod_pow2 X n m H), E, (mod_mod_pow2 _ n m H).
+  rewrite N.mul_mod by apply pow2_ne0. rewrite (mod_mod_pow2 A n m H).
+  rewrite <- N.mul_mod by apply pow2_ne0. reflexivity.
+Qed.
+
+Lemma f_mul_gen P w v rhs R :
+  0 < w -> canon_wv w v -> Proofs.Mul.digits_of w R rhs ->
+  exists d, mul_rows P w (wd v) rhs (zerosw (lenw (wd v))) (v_int_len w v) = Ok d /\
+    canon_wv w (mkwv (mod2n w d (wl v)) (wl v)) /\ lenw (mod2n w d (wl v)) = lenw (wd v) /\
+    raw w (mod2n w d (wl v)) = (raw w (wd v) * R) mod 2 ^ wl v.
+Proof.
+  intros Hw (Hd & Hl & Hr) HR.
+  assert (Hlen : v_int_len w v <= lenw (wd v)).
+  { unfold v_int_len. apply (ceil_div_spec (wl v) w Hw). assumption. }
+  destruct (mul_rows_spec P w (wd v) rhs R (v_int_len w v) Hw Hd HR Hlen) as (res & E & Hres & Hlr & Hm & _).
+  exists res. split; [exact E|].
+  destruct (fixed_finish w res (wl v) Hw Hres ltac:(rewrite Hlr; assumption)) as (F1 & F2 & F3).
+  split; [exact F1|]. split; [rewrite F2; exact Hlr|]. rewrite F3.
+  apply (mul_mod_down _ _ _ _ (w * v_int_len w v)); [apply int_len_bound; assumption|exact Hm].
+Qed.
+
+Lemma d_mul_gen P v rhs R :
+  canon_wv 64 v -> Proofs.Mul.digits_of 64 R rhs ->
+  exists d, mul_rows P 64 (wd v) rhs (zerosw (cfbl_d (wl v))) (cfbl_d (wl v)) = Ok d /\
+    canon_wv 64 (mkwv (mask_top64 d (wl v)) (wl v)) /\
+    raw 64 (mask_top64 d (wl v)) = (raw 64 (wd v) * R) mod 2 ^ wl v.
+Proof.
+  intros Hc HR. pose proof Hc as (Hd & Hl & Hr). assert (H64 : 0 < 64) by lia.
+  pose proof (canon_cfbl_le v Hc) as Hk.
+  assert (Hnk : wl v <= 64 * cfbl_d (wl v)) by (rewrite Proofs.Arith.cfbl_d_eq; lia).
+  set (ks := cfbl_d (wl v)) in *.
+  destruct (mul_rows_spec_gen P 64 (wd v) rhs R ks ks H64 Hd HR Hk (N.le_refl ks))
+    as (res & E & Hres & Hlr & Hm & Hz).
+  exists res. split; [exact E|].
+  destruct (heap_finish res (wl v) Hres) as (F1 & F2 & F3).
+  { fold ks. rewrite Hlr. apply N.le_refl. }
+  { fold ks. exact Hz. }
+  split; [exact F1|]. rewrite F3.
+  apply (mul_mod_down _ _ _ _ (64 * ks)); [assumption|exact Hm].
+Qed.
+
+Definition mul_sel (P : profile) (fa : bool) (wa : N) (va : wv) (fb : bool) (wb : N) (vb : wv)
+  : outcome wv :=
+  match fa, fb with
+  | true, _ => f_mul P wa va wb vb
+  | false, true => d_mul_f P va wb vb
+  | false, false => d_mul_d P va vb
+  end.
+
+Lemma x_mul_sel P a b :
+  x_mul P a b =
+  let! y := mul_sel P (is_fixed a) (xw a) (xv a) (is_fixed b) (xw b) (xv b) in Ok (x_with a y).
+Proof.
+  destruct a as [w v|v|[|] v]; destruct b as [w2 r|r|[|] r];
+    unfold x_mul, mul_sel; cbn [core rewrap is_fixed xw xv x_with bind]; unfold BVP_W, W64;
+    match goal with
+    | |- context [f_mul ?P ?w ?v ?w2 ?r] => destruct (f_mul P w v w2 r)
+    | |- context [d_mul_f ?P ?v ?w ?r] => destruct (d_mul_f P v w r)
+    | |- context [d_mul_d ?P ?v ?r] => destruct (d_mul_d P v r)
+    end; reflexivity.
+Qed.
+
+Lemma mul_sel_spec P fa wa va fb wb vb :
+  canon_wv wa va -> std_width wa -> (fa = false -> wa = 64) ->
+  canon_wv wb vb -> std_width wb -> (fb = false -> wb = 64) ->
+  exists y, mul_sel P fa wa va fb wb vb = Ok y /\ canon_wv wa y /\ wl y = wl va /\
+            (fa = true -> lenw (wd y) = lenw (wd va)) /\
+            raw wa (wd y) = (raw wa (wd va) * raw wb (wd vb)) mod 2 ^ wl va.
+Proof.
+  intros Hca Hsa Ha64 Hcb Hsb Hb64.
+  pose proof (std_width_pos _ Hsa) as Hwa. pose proof (std_width_pos _ Hsb) as Hwb.
+  unfold mul_sel. destruct fa.
+  - (* array on the left: the right operand through get_int::<I1> whatever its type *)
+    unfold f_mul, f_zeros.
+    assert (wl va <=? wa * lenw (wd va) = true) as -> by (apply N.leb_le; apply Hca).
+    cbn [assert_ bind wd wl].
+    destruct (f_mul_gen P wa va _ _ Hwa Hca (rhs_get_int wb wa vb Hsb Hsa Hcb)) as (d & E & G1 & G2 & G3).
+    change (v_int_len wa {| wd := zerosw (lenw (wd va)); wl := wl va |}) with (v_int_len wa va).
+    rewrite E. cbn [bind].
+    eexists. split; [reflexivity|]. split; [exact G1|]. split; [reflexivity|].
+    split; [intros _; exact G2|exact G3].
+  - rewrite (Ha64 eq_refl) in *. destruct fb.
+    + unfold d_mul_f, d_zeros. cbn [wd wl].
+      change (v_int_len W64 {| wd := zerosw (cfbl_d (wl va)); wl := wl va |}) with (v_int_len W64 va).
+      rewrite int_len_64. unfold W64.
+      destruct (d_mul_gen P va _ _ Hca (rhs_get_int wb 64 vb Hsb Hsa Hcb)) as (d & E & G1 & G3).
+      rewrite E. cbn [bind]. eexists. split; [reflexivity|]. split; [exact G1|]. split; [reflexivity|].
+      split; [intros; discriminate|exact G3].
+    + rewrite (Hb64 eq_refl) in *. unfold d_mul_d, d_zeros. cbn [wd wl]. unfold W64.
+      destruct (d_mul_gen P va _ _ Hca (rhs_same 64 vb Hwb Hcb)) as (d & E & G1 & G3).
+      rewrite E. cbn [bind]. eexists. split; [reflexivity|]. split; [exact G1|]. split; [reflexivity|].
+      split; [intros; discriminate|exact G3].
+Qed.
+
+Theorem x_mul_spec P a b :
+  Good a -> Good b ->
+  exists r, x_mul P a b = Ok r /\ Good r /\ kind_of r = kind_of a /\ is_fixed r = is_fixed a /\
+            abs r = s_mul (abs a) (abs b).
+Proof.
+  intros Ha Hb. destruct (Good_view a Ha) as (Hc & Hs & H64). destruct (Good_view b Hb) as (Hcb & Hsb & Hb64).
+  destruct (mul_sel_spec P _ _ _ _ _ _ Hc Hs H64 Hcb Hsb Hb64) as (y & E & Hy & Hl & Hn & Hr).
+  rewrite x_mul_sel, E. cbn [bind].
+  destruct (x_with_good a y Ha Hy Hl Hn) as (G1 & G2 & G3 & G4).
+  exists (x_with a y). split; [reflexivity|]. split; [assumption|]. split; [assumption|].
+  split; [assumption|]. rewrite G4, Hr, (Good_abs a Ha), (Good_abs b Hb).
+  unfold s_mul. cbn [blen bval]. rewrite trunc_mod. reflexivity.
 Qed.
